@@ -66,6 +66,9 @@ def _baseline(key: str):
         with _Instrument(record=True) as ins:
             _from_config(spec, td)
         fname = L.make_cfg(spec).to_fname() + ".zanj"
+        if not os.path.exists(os.path.join(td, fname)):
+            # the very first request left no file under the requested configuration's name: reported by check() as a violation
+            return fresh, None, fname, None
         with open(os.path.join(td, fname), "rb") as f:
             intact = f.read()
         ops = ins.ops
@@ -246,6 +249,7 @@ def check(case: dict):
     kind = fault["kind"]
     sig = f"C11:{kind}"
     labels = [key, kind]
+    require(intact is not None, "C11:missing:no-file-left", f"a request for {key} with an empty cache directory left no file named {fname}")
     with core.TempDir() as td:
         path = os.path.join(td, fname)
         damaged = None
@@ -296,7 +300,7 @@ def check(case: dict):
             fresh2 = _fp(_from_config(second, "unused", load_local=False, save_local=False))
             _from_config(first, td)
             path2 = os.path.join(td, L.make_cfg(second).to_fname() + ".zanj")
-            require(os.path.exists(path2), "C11:harness:collision-file", "the first request left no file under the shared name")
+            require(os.path.exists(path2), "C11:missing:no-file-left", "the first request left no file under the shared name")
             res = _verify_request(sig, second, td, path2, fresh2, allow_mismatch_error=True)
             labels.append(res)
             return {"nt": True, "labels": labels}
@@ -311,6 +315,7 @@ def check(case: dict):
                 except Exception as e:  # noqa: BLE001
                     raise core.Discard() from e
                 ofname = L.make_cfg(other).to_fname() + ".zanj"
+                require(os.path.exists(os.path.join(td2, ofname)), "C11:missing:no-file-left", f"a request for the variant configuration ({fld} changed) left no file named {ofname}")
                 with open(os.path.join(td2, ofname), "rb") as f:
                     damaged = f.read()
                 other_fp = _fp(ods)
@@ -426,6 +431,10 @@ def _enumerated(keys, trunc_stride, corrupt_stride, modes, all_structure=True, n
     def cases(shard, nshards):
         for key in keys:
             fresh, intact, fname, ops = _baseline(key)
+            if intact is None:
+                if shard == 0:
+                    yield {"cfg": key, "fault": {"kind": "missing"}}
+                continue
             L_ = len(intact)
             if shard == 0:
                 for kind in ("missing", "empty", "intact"):
